@@ -239,6 +239,15 @@ example :
                   | .error _ => 0)
      | .error _ => 0) = 5 := by decide
 
+/-- a composite operation re-dispatches with the RESOLVED values: `with mc(app_id=31): mc.count_cores_in_state(states, 30)`
+- one count command per state, through `self.count_cores_in_state(s, app_id)` - every pattern carries
+application 30 (the explicit one), none the context's 31 or the default 66 -/
+example :
+    (match callRes ⟨sigs, "MachineController", []⟩ "count_cores_in_state" [.other "['run', 'wait']", .int 30] []
+        [[("app_id", .int 31)], [("app_id", .int 66)]] with
+     | .sent _ pats => pats.all (fun pt => pt.extra == some (.int 30)) && pats.length ≥ 2
+     | .rejected _ => false) = true := by decide
+
 /-- boards given as an iterable: `bmp.set_led(7, board=[2, 0])` goes to board 2 with mask 0b101,
 `bmp.set_power(True, board=[2, 1])` to board 0 with mask 0b110 -/
 example :
